@@ -39,6 +39,71 @@ CHECKS = {
    text="For every finished run and every candidate subset S the solid-coalition weight is recomputed from the input and |elected ∩ S| >= min(floor(W/T),|S|,m) is asserted; workloads are biased to coalitions worth exactly k*T and k*T-1.",
    note="Conservative coalition reading (first |S| positions exactly S). Runs that raise are judged by C01.",
    ref="§4 C07"),
+ "C08": dict(
+   technique="metamorphic runtime monitor (rename / permute / split / merge / candidate order) on RNG-tapped deterministic executions, plus cross-process differential runs of the same shard under several PYTHONHASHSEED values",
+   text="Every deterministic path (RNG tap saw no draw) of every ranking, scoring and pairwise rule and of the scoring utilities is re-run on transformed copies of the profile and must give the canonically identical (resp. renamed) rounds; the same cases are executed in separate interpreters under 4 (thorough 16) hash seeds and the canonical outcomes byte-compared.",
+   note="Canonical forms sort inside tied groups, so only differences the statement forbids are compared.",
+   ref="§4 C08"),
+ "C09": dict(
+   technique="runtime monitor over query histories: canonical snapshots of the election object before/after every query (purity), fold-of-records oracle for cumulative getters, replay oracle for get_profile/get_step, index algebra",
+   text="Generated sequences of 12-60 getter calls (repetition, negative and out-of-range indices) are applied to finished elections of all 18 rules; the recorded rounds, the initial profile and all scalar attributes must never change, and for elections built without randomness each answer must agree with the per-round records, with re-scoring, and with the answer for the equivalent index.",
+   note="Consistency clauses are judged only for elections whose construction drew no randomness (as the statement says); purity for all.",
+   ref="§4 C09"),
+ "C10": dict(
+   technique="runtime monitor: RNG tap + scripted re-execution (outcome invariance unless a tiebreak is recorded), per-rule validity oracle for every recorded tiebreak, reference scores for borda/first_place resolutions",
+   text="Non-random rules are run on profiles engineered to tie at the seat boundary, at the elimination end and nowhere; runs that draw randomness are re-executed over the scripted choice tree; each recorded tiebreak must be a strict order of a genuinely tied, order-relevant set that the round's groups obey, and score tiebreaks must be non-increasing on the reference score of the profile the rule passes.",
+   note="'Deciding tally' is read per rule (DESIGN §4 C10). Randomness that does not influence the outcome is not flagged.",
+   ref="§4 C10"),
+ "C11": dict(
+   technique="runtime monitor: constructor post-conditions (exact rationals), mutation attempts on every field, content-multiset algebra for condense / == / + over all ballot orders",
+   text="Ballots and profiles are built from int/float/Fraction inputs and mixtures of ranked, scored and empty ballots in several (thorough: all) orders; every field assignment must raise and leave the value unchanged; condensing must preserve the (ranking, scores) content multiset, be distinct, idempotent and order independent; == must coincide with multiset equality in both operand orders; + must add.",
+   note="Equality is not exercised with zero-weight ballots; Fractions with denominators above 10^6 may be kept or rounded.",
+   ref="§4 C11"),
+ "C12": dict(
+   technique="runtime monitor: independent per-ballot image oracle and multiset conservation for every editing utility; reference scorer for the 'totals unchanged' clause",
+   text="remove_cand (profile / tuple / single ballot, all flag combinations), add_missing_cands, expand_tied_ballot, resolve_profile_ties and the cleaning functions are called on generated inputs; the result multiset {ranking -> weight} must equal the summed weights of the inputs mapping to each image, order and grouping preserved, expansions exactly the linear extensions.",
+   note="clean_profile merges only adjacent equal rankings: compared as multisets. remove_noncands may or may not de-duplicate repeats.",
+   ref="§4 C12"),
+ "C13": dict(
+   technique="differential runtime monitor: alias/composite rule vs its documented composition under the same positional RNG script, compared when both sides met the same choice points",
+   text="IRV vs STV(m=1), SNTV vs Plurality, SequentialRCV vs STV with the harness's own full-weight transfer, TopTwo vs a reference two-stage count, Alaska vs Plurality(m_1) then STV(m_2) on the harness-reduced profile with rounds renumbered: canonical all-round equality.",
+   note="Alaska constructions that raise (known finding replay-redraw of C01) are not compared.",
+   ref="§4 C13"),
+ "C14": dict(
+   technique="runtime monitor: structural well-formedness post-conditions on every generator entry point; Huntington-Hill validity oracle (divisor min-max inequality) for bloc sizes and crossover splits",
+   text="All generator classes and entry points (generate_profile, by_bloc, MCMC variants, generate_profile_with_dict) are run on generated parameter sets (1-3 blocs, slate sizes 1-3, 0/1 cohesion and proportions, zero-support candidates, N from 1); totals, integer weights, declared candidates, completeness, final zero-support tie, short-PL length, cumulative points, bloc additivity and apportionment are asserted.",
+   note="Known findings by mechanism: apportionment library hands ballots to zero-proportion types when N < #types; MCMC samplers crash on single-state chains.",
+   ref="§4 C14"),
+ "C15": dict(
+   technique="differential runtime monitor: every closed-form table recomputed from its definition in exact rationals of the float inputs, compared cell by cell",
+   text="PreferenceInterval, combine_preference_intervals, pref_interval_by_bloc, name_BradleyTerry.pdfs_by_bloc and slate_BradleyTerry.ballot_type_pdf are built on generated intervals (1-7 candidates, supports over six orders of magnitude, zero supports, cohesion in (0,1) and at the ends, 1-3 blocs) and compared with exact recomputation: same keys, cells within 1e-9 relative, sum 1.",
+   note="Float inputs are read as their exact binary value.",
+   ref="§4 C15"),
+ "C16": dict(
+   technique="law-mode RNG interposition (arguments of np.random.choice / uniform matched to the model's interval per bloc and slate, drawn orders traced onto the ballots), MCMC kernel extraction by scripted single steps + detailed-balance check, end-to-end frequency tests with Hoeffding thresholds, spatial rankings recomputed from returned positions",
+   text="Each distribution clause is decided twice: exactly, by checking what is handed to the sampling primitive and how its result is used (trusting the primitive's documented semantics), and end-to-end by 20k (thorough 200k) ballot frequency tests against closed forms with an explicit false-alarm bound of 1e-9 per test. MCMC samplers are decided by extracting the kernel one scripted step at a time and checking detailed balance against the closed-form table.",
+   note="Frequency tests only bound deviations above the stated threshold (~2.5% quick, ~0.8% thorough).",
+   ref="§4 C16"),
+ "C17": dict(
+   technique="law-mode RNG interposition on random.choices / random.uniform / np.random.choice / random.sample along scripted paths, closed-form recursion for winner sequences, frequency tests with Hoeffding thresholds",
+   text="RandomDictator and BoostedRandomDictator are run under scripted streams: each ballot draw must offer exactly the current profile's ballots with their weights (induced law = first-place share with ties split), the boosted rule's branch is probed at u = tau +- 1e-9 for every tau = 1/(c-1), the squares branch's (candidates, p) compared with squared shares; random tiebreaks must permute exactly the tied set uniformly and be recorded as drawn; winner-sequence frequencies are compared with the closed form.",
+   note="Trusts the documented semantics of the primitives; frequency tests bound only deviations above the threshold.",
+   ref="§4 C17"),
+ "C18": dict(
+   technique="runtime monitor: expected profile computed from the generated file itself (table oracle), documented-error table for malformed variants, to_csv parsed back",
+   text="load_csv is called on generated tables with every kind of column layout (id / weight column at any position, subsets and re-orderings of rank_cols, four delimiters, names needing quoting) and must return exactly one ballot per distinct selected-column pattern with the row count or weight sum; load_scottish on generated files; the four documented errors; to_csv rows parsed back.",
+   note="Candidate names are non-numeric strings (pandas re-types numeric cells).",
+   ref="§4 C18"),
+ "C19": dict(
+   technique="runtime monitor: exact rational p-norm reference and metric axioms on generated triples; exhaustive node/edge comparison of BallotGraph(n), n=2..6, with an explicit reference graph",
+   text="lp_dist is compared with the exact p-norm for p in {1,2,3,5,inf}, must be exactly 0 for reordered / condensed / rescaled / split copies, symmetric and triangular; BallotGraph(n) is enumerated completely for n=2..6 on every run; loading profiles puts every ballot's weight on its node.",
+   note="Tolerances: value 1e-9 relative, symmetry/triangle 1e-12.",
+   ref="§4 C19"),
+ "C20": dict(
+   technique="table-driven runtime monitor: for each documented precondition, smallest-margin and gross violations (offending ballot at any position) must raise the documented exception type and the boundary-valid twin must be accepted",
+   text="About 200 rows per repetition over all rules, transfers, scoring helpers, generators and profiles: missing rankings/scores, tied positions for the STV family, non-integer weights, seat counts 0, -1, n+1 vs 1 and n, Alaska stage sizes, negative/increasing score vectors, non-positive or inconsistent limits and budgets, unknown quota names, sums off by 1e-6 vs 1e-12, mismatched bloc names, overlapping intervals, duplicate candidates.",
+   note="pydantic ValidationError counts as ValueError. A mismatch inside one bloc's cohesion dictionary is not judged.",
+   ref="§4 C20"),
 }
 def main():
     checks = []
